@@ -739,6 +739,37 @@ def run(tier):
             rejected.append(("reject:pool-program:" + (core.reject_sig(text) or "?"), text, "pool", out[1]))
     R.set("hand_written_pool_programs", hand_total)
 
+    # ---- the same translation units through parse_file(use_cpp=False): files
+    # written with LF, CRLF and bare CR line ends (text mode reads all three as
+    # newlines) must be accepted like the text itself
+    import tempfile
+    from pycparser import parse_file
+
+    pf_total = 0
+    with tempfile.TemporaryDirectory(prefix="c01pf") as td:
+        progs = [t for t in pool_adapters.EXTRA if '"' not in t and "'" not in t and "#" not in t and len(t) < 400][:40]
+        for i, text in enumerate(progs):
+            if outcome(text)[0] != "ok":
+                continue
+            lines = text.replace(";", ";\n").replace("{", "{\n")
+            ref = core.canon(core.parse_outcome(lines)[1])
+            for eol_name, eol in (("lf", "\n"), ("crlf", "\r\n"), ("cr", "\r")):
+                path = os.path.join(td, "p%d_%s.c" % (i, eol_name))
+                with open(path, "w", newline="") as f:
+                    f.write(lines.replace("\n", eol))
+                total += 1
+                pf_total += 1
+                try:
+                    got = core.canon(parse_file(path, use_cpp=False))
+                except Exception as e:  # noqa
+                    R.fail("parse_file-rejects:line-ends-" + eol_name, {"text": lines.replace("\n", eol), "where": "parse_file"}, repr(e)[:200])
+                    continue
+                accepted += 1
+                if got != ref:
+                    R.fail("parse_file-differs:line-ends-" + eol_name, {"text": lines.replace("\n", eol), "where": "parse_file"},
+                           "/".join(core.first_diff(got, ref) or ()))
+    R.set("parse_file_line_end_runs", pf_total)
+
     # ---- long-lookahead family (lead): valid declarators whose prefix before the
     # declared name is long, at every offset into the token stream - the
     # declarator-name lookahead and every mark/reset must work at any distance
